@@ -48,7 +48,15 @@ def _job(spec):
             type(e).__name__, e), 'tb': traceback.format_exc(limit=10)}
 
 
+MEM_LIMIT = 7 * 1024 ** 3      # address space per job (a fresh job maps ~2.4 GB)
+
+
 def _child(conn, spec):
+    try:
+        import resource
+        resource.setrlimit(resource.RLIMIT_AS, (MEM_LIMIT, MEM_LIMIT))
+    except Exception:
+        pass
     try:
         r = _job(spec)
     except BaseException as e:
